@@ -50,6 +50,10 @@ W = [
     sub={"n_state": 1, "scan_outs": [0]}, out_count=2), "known", None),
  ("v17.SequenceMap", call("spox.opset.ai.onnx.v17", "SequenceMap", [{"seq": T(1, [2, 4])}, None], [0, [1]],
     sub={"outs": [0]}, out_count=1), "known", None),
+ ("v17.Scan", call("spox.opset.ai.onnx.v17", "Scan", [T(6, [5, 1, 2, 3])], [[0]], {"num_scan_inputs": 1, "scan_input_axes": [1]},
+    sub={"n_state": 0, "scan_outs": [0]}, out_count=1), "known", None),
+ ("v17.Scan", call("spox.opset.ai.onnx.v17", "Scan", [T(7, ["K", "N", "K"]), T(7, [3, "K", None, "K"])], [[0, 1]],
+    {"num_scan_inputs": 1, "scan_input_axes": [2]}, sub={"n_state": 1, "scan_outs": [0]}, out_count=2), "known", None),
  ("v17.Compress", call("spox.opset.ai.onnx.v17", "Compress", [None, T(9, ["K"])], [0, 1]), "fixed: b88bbb9",
   "untyped-input-raises:Compress:TypeError"),
 ]
